@@ -283,12 +283,14 @@ func vPersistRun(tr *vTrace, id string, salt int64, bytesN int) {
 		emitLoad("corrupt", fb, vPEncode(fb), version, size)
 		if len(blocks[i].b.Data) > 4 {
 			// payload damaged AND the checksum field zeroed (e.g. dropped by a damaged type descriptor)
-			fb = cp()
-			d := append([]byte{}, blocks[i].b.Data...)
-			d[len(d)-1-rnd.Intn(3)] ^= byte(1 << uint(rnd.Intn(8)))
-			fb[i].b.Data = d
-			fb[i].b.CheckSum = 0
-			emitLoad("corrupt", fb, vPEncode(fb), version, size)
+			for try := 0; try < 6; try++ {
+				fb = cp()
+				d := append([]byte{}, blocks[i].b.Data...)
+				d[rnd.Intn(len(d))] ^= byte(1 << uint(rnd.Intn(8)))
+				fb[i].b.Data = d
+				fb[i].b.CheckSum = 0
+				emitLoad("corrupt", fb, vPEncode(fb), version, size)
+			}
 		}
 		for _, t := range []uint8{1, 2, 3, 4, 255, 9} {
 			if t == blocks[i].b.Type {
